@@ -27,6 +27,7 @@ type SnapDriver struct {
 	maxResizes int
 	node       *Account
 	node1      *Account
+	light      bool // long histories: only the cheap part of the read-back after this step
 }
 
 func NewSnapDriver(counts []int, maxEpochs, maxResizes int) *SnapDriver {
@@ -160,6 +161,24 @@ func (d *SnapDriver) Step(x *Exec, n *Node, i int) StepResult {
 			return viol("resize-bricks-tick", fmt.Sprintf("after updateSnapshotCount(%d) newEpoch faults: %s", c, pr.Fault))
 		}
 	}
+	if d.light {
+		// the cheap read-back: the newest map and the newest per-epoch list
+		if nm.keep > 0 {
+			r := w.Read(cur.L, cur.H, cur.TS, h, "netmap")
+			l, _ := r.Ret0().([]any)
+			want := 1 + nm.cur%2
+			if !r.Halt || len(l) != want {
+				return viol("netmap-not-newest", fmt.Sprintf("netmap() holds %d nodes at epoch %d, want %d (%s)", len(l), nm.cur, want, r.Fault))
+			}
+			r = w.Read(cur.L, cur.H, cur.TS, h, "listNodes")
+			l, _ = r.Ret0().([]any)
+			if !r.Halt || len(l) != want {
+				return viol("listNodes-wrong", fmt.Sprintf("listNodes() holds %d nodes at epoch %d, want %d (%s)", len(l), nm.cur, want, r.Fault))
+			}
+		}
+		cur.M = nm
+		return StepResult{Next: cur, Outcome: outcome, Changed: true}
+	}
 	// ---- read API vs model ----
 	// maps are compared as sets of entries (the order follows the keys, which is not part of the statement)
 	asSet := func(v any) string {
@@ -265,3 +284,77 @@ func (d *SnapDriver) Step(x *Exec, n *Node, i int) StepResult {
 	cur.M = nm
 	return StepResult{Next: cur, Outcome: outcome, Changed: true}
 }
+
+// ---------- C08b: long linear histories (grid) ----------
+
+// LongHistoryGrid runs tick^p, updateSnapshotCount(c), tick^T with the same per-step oracle as the exploration:
+// histories of hundreds of epochs with counts around one byte (255, 256, 257, ...), which the breadth-first search
+// cannot reach. Every step is judged; the full read-back is made at chosen epochs (around the encoding boundaries
+// 127/128 and 255/256 and at a stride), a cheaper one (tick succeeded, newest map, epoch) everywhere else.
+type LongHistoryGrid struct{ d *SnapDriver }
+
+type longCase struct {
+	Count, Before, After int
+}
+
+func NewLongHistoryGrid() *LongHistoryGrid {
+	return &LongHistoryGrid{d: NewSnapDriver(nil, 1<<30, 1<<30)}
+}
+func (g *LongHistoryGrid) Name() string { return "netmap-long-history" }
+func (g *LongHistoryGrid) Rule() string {
+	return "linear histories tick^p, updateSnapshotCount(c), tick^T for counts c in {255,256,257} (quick) / {12,100,255,256,257,266,300} (thorough), p = the ring positions 0..10 (quick: 0,5,9,10), T = 300: every tick must succeed, the complete read-back of the exploration's oracle at epochs around 127/128, 255/256, c and at a stride of 32; non-trivial = the resize was accepted; distinct by case"
+}
+func (g *LongHistoryGrid) Build() *World { return g.d.Build() }
+func (g *LongHistoryGrid) Cases(tier string) []GridCase {
+	counts, before := []int{255, 256, 257}, []int{0, 5, 9, 10}
+	if tier == "thorough" {
+		counts, before = []int{12, 100, 255, 256, 257, 266, 300}, []int{0, 1, 2, 3, 4, 5, 6, 7, 8, 9, 10}
+	}
+	var out []GridCase
+	for _, c := range counts {
+		for _, p := range before {
+			out = append(out, GridCase{Name: fmt.Sprintf("tick^%d, updateSnapshotCount(%d), tick^300", p, c), Data: longCase{c, p, 300}})
+		}
+	}
+	return out
+}
+
+func (g *LongHistoryGrid) Eval(x *Exec, root *Node, gc GridCase) GridResult {
+	c := gc.Data.(longCase)
+	d := g.d
+	d.counts = []int{c.Count}
+	n := &Node{L: root.L, H: root.H, TS: root.TS, M: d.Init(x.W)}
+	step := func(op int, full bool) *Violation {
+		d.light = !full
+		r := d.Step(x, &Node{L: n.L, H: n.H, TS: n.TS, M: n.M.Clone()}, op)
+		d.light = false
+		if r.V != nil {
+			return r.V
+		}
+		n = r.Next
+		return nil
+	}
+	for i := 0; i < c.Before; i++ {
+		if v := step(0, true); v != nil {
+			return GridResult{Outcome: "violation", Nontrivial: true, V: []*Violation{v}}
+		}
+	}
+	res := n.M.(*snapModel).resizes
+	if v := step(1, true); v != nil {
+		return GridResult{Outcome: "violation", Nontrivial: true, V: []*Violation{v}}
+	}
+	if n.M.(*snapModel).resizes == res {
+		return GridResult{Outcome: "resize-refused"}
+	}
+	for i := 0; i < c.After; i++ {
+		e := n.M.(*snapModel).cur + 1
+		full := e%32 == 0 || near(e, 127) || near(e, 255) || near(e, c.Count) || near(e, c.Count+c.Before) || i == c.After-1
+		if v := step(0, full); v != nil {
+			v.Where["epoch"] = e
+			return GridResult{Outcome: "violation", Nontrivial: true, V: []*Violation{v}}
+		}
+	}
+	return GridResult{Outcome: "history-exact", Nontrivial: true}
+}
+
+func near(e, b int) bool { return e >= b-2 && e <= b+3 }
